@@ -266,12 +266,17 @@ def main():
 
         # groups run concurrently (each is its own cargo-kani invocation; cargo
         # serialises the builds, the solver runs overlap)
-        threads = [threading.Thread(target=run_group, args=(g,)) for g in groups]
-        for k, t in enumerate(threads):
-            t.start()
-            time.sleep(20 if k + 1 < len(threads) else 0)
-        for t in threads:
-            t.join()
+        if tier in spec.get("sequential_tiers", ()):
+            # memory-heavy tiers: one group after the other
+            for g in groups:
+                run_group(g)
+        else:
+            threads = [threading.Thread(target=run_group, args=(g,)) for g in groups]
+            for k, t in enumerate(threads):
+                t.start()
+                time.sleep(20 if k + 1 < len(threads) else 0)
+            for t in threads:
+                t.join()
         exit_code = max(exit_code, state["exit"]) if state["exit"] != 1 else 1
         replay_dir = state["replay_dir"]
     finally:
